@@ -96,7 +96,7 @@ check("C13", "exploration",
       "DESIGN.md §3 C13", engine="engine/common + lexgen + sqlgen")
 check("C16", "exploration",
       "bounded exhaustive enumeration payload x position x wrapper x layout x threshold x API; per-API canonical-answer oracle",
-      "18 payloads (10 documented ones, 4 other spellings, 4 nestings of one call in another's arguments) in every expression hole; UNION probes (NULL columns, 9 system tables) x 8 hosts x 3 spellings; of the model grammar (conditions also as AND/OR/NOT operands, in parentheses, nested three levels, next to sibling clauses, in set operations and scripts; thorough: inside EXISTS sub-queries) under 3 layouts, 4 severity thresholds and 3 scanner APIs: documented class/severity in the canonical position, superset of the canonical findings everywhere else, layout invariance, threshold = filter, counters = list, tree unchanged, reused scanner = new scanner (also with its threshold field re-assigned between scans, every ordered pair).",
+      "18 payloads (10 documented ones, 4 other spellings, 4 nestings of one call in another's arguments) in every expression hole; UNION probes (NULL columns, 9 system tables) x 8 hosts x 3 spellings; of the model grammar (conditions also as AND/OR/NOT operands, in parentheses, nested three levels, next to sibling clauses, in set operations and scripts; thorough: inside EXISTS sub-queries) under 3 layouts, 4 severity thresholds and 3 scanner APIs: documented class/severity in the canonical position, superset of the canonical findings everywhere else, layout invariance, threshold = filter, counters = list, tree unchanged, reused scanner = new scanner (also with its threshold field re-assigned between scans, every ordered pair), results kept by the caller are not modified by later scans.",
       "Trusted: closure is judged per API against that API's own canonical answer.",
       "DESIGN.md §3 C16")
 check("C18", "model_checking",
